@@ -313,7 +313,7 @@ def opHist (line : String) : Option String := do
       let eps ← parseRat eps
       let vt ← parseVetoTab vt
       let dim ← dim.toNat?
-      let K := art1Kernel (← parseRat L) dim (dim : Rat)
+      let K := art1Kernel (← parseRat L) dim
       let calls ← callStrs.mapM (parseCall (parseMat (α := Rat)))
       let rho ← parseRat rho
       if kind == "base" then
